@@ -346,6 +346,10 @@ class _RunC09(Contract):
 @register
 class SSIdat_run(_RunC09):
     qualname = "pyoma2.algorithms.ssi.SSIdat.run"
+    # the run() layer also carries C01: a pole of the kernel's tables that passes the caller's hard criteria reaches the result tables
+    # with unchanged frequency, damping, shape and pole (the 'complete.*' obligations); the criteria themselves are C09's
+    props = ("C09", "C01")
+    prop_clauses = {"C01": lambda oid: "/post.complete." in oid or "/post.shape." in oid or "no-exception" in oid}
 
     def setup(self, c):
         return {"self": ssi_algo(c, "SSIdat")}
@@ -387,6 +391,10 @@ class pLSCF_run_conj_int(_RunC09):
 @register
 class SSIdat_MS_run(_RunC09):
     qualname = "pyoma2.algorithms.ssi.SSIdat_MS.run"
+    # the run() layer also carries C03: a pole of the kernel's tables that passes the caller's hard criteria reaches the result tables
+    # with unchanged frequency, damping, shape and pole (the 'complete.*' obligations); the criteria themselves are C09's
+    props = ("C09", "C03")
+    prop_clauses = {"C03": lambda oid: "/post.complete." in oid or "/post.shape." in oid or "no-exception" in oid}
 
     def setup(self, c):
         return {"self": ssi_algo(c, "SSIdat_MS", multi=True)}
@@ -395,6 +403,10 @@ class SSIdat_MS_run(_RunC09):
 @register
 class pLSCF_run(_RunC09):
     qualname = "pyoma2.algorithms.plscf.pLSCF.run"
+    # the run() layer also carries C05: a pole of the kernel's tables that passes the caller's hard criteria reaches the result tables
+    # with unchanged frequency, damping, shape and pole (the 'complete.*' obligations); the criteria themselves are C09's
+    props = ("C09", "C05")
+    prop_clauses = {"C05": lambda oid: "/post.complete." in oid or "/post.shape." in oid or "no-exception" in oid}
 
     def setup(self, c):
         return {"self": plscf_algo(c, "pLSCF")}
@@ -403,6 +415,10 @@ class pLSCF_run(_RunC09):
 @register
 class pLSCF_MS_run(_RunC09):
     qualname = "pyoma2.algorithms.plscf.pLSCF_MS.run"
+    # the run() layer also carries C05: a pole of the kernel's tables that passes the caller's hard criteria reaches the result tables
+    # with unchanged frequency, damping, shape and pole (the 'complete.*' obligations); the criteria themselves are C09's
+    props = ("C09", "C05")
+    prop_clauses = {"C05": lambda oid: "/post.complete." in oid or "/post.shape." in oid or "no-exception" in oid}
 
     def setup(self, c):
         return {"self": plscf_algo(c, "pLSCF_MS", multi=True)}
